@@ -218,6 +218,12 @@ func (p *formProg) build() *form.Data {
 	if p.Ctor == "Cancel" {
 		return form.Cancel(p.Title, p.Instr)
 	}
+	return form.New(p.fieldValues()...)
+}
+
+// fieldValues returns the form.Field values of a New program (declared once;
+// the aliasing cases apply them to several forms).
+func (p *formProg) fieldValues() []form.Field {
 	var fs []form.Field
 	if p.HasTitle {
 		fs = append(fs, form.Title(p.Title))
@@ -250,7 +256,7 @@ func (p *formProg) build() *form.Data {
 			fs = append(fs, fieldCtors[f.Ctor](f.Var, os...))
 		}
 	}
-	return form.New(fs...)
+	return fs
 }
 
 func (s setSpec) value() any {
